@@ -791,7 +791,12 @@ func (c *Conn) finishHeld(r *Ctx, stream uint32, err error, held bool) {
 
 	c.dropPending(stream, held)
 
-	verifPoint("cli.finish")
+	if held {
+		verifPoint("cli.finish.held") // the caller holds r: a point to yield at, not to wait at
+	} else {
+		verifPoint("cli.finish")
+	}
+
 	r.markFinished()
 	r.resolve(err)
 }
